@@ -31,7 +31,8 @@ ASSUMPTIONS = ["conditioning guard R<=8", "bound 200*epsrel*scale"]
 def required_cells(tier):
     return {"variant:differential": 6, "variant:linear": 4,
             "variant:nofield": 3, "variant:frozen": 3, "nsys:1": 3, "nsys:2": 3, "nsys:3": 1,
-            "start!=0": 4, "record_all:False": 2, "reached-in-two-calls": 4, "heun_steps_checked": 50,
+            "start!=0": 4, "record_all:False": 2, "reached-in-two-calls": 4, "memory-given-as-tcut": 4,
+            "initial-state:non-contiguous": 6, "heun_steps_checked": 50,
             "td": 4, "subdiv:None": 8, "second-solver-on-same-system": 8,
             "pulsed-H&loose-liouvillian-epsrel": 2,
             "initial-matrix:non-hermitian": 2, "add_correlation_time": 6}
@@ -172,7 +173,15 @@ def run_case(case):
     # must honour it
     violations, cells, monitors = [], [], {}
     subdiv = None if (i // 3) % 4 == 1 else 256
-    params = lib.tempo_params(dt, epsrel, kmax, tau, subdiv)
+    as_tcut = None
+    if kmax is not None:
+        as_tcut = [None, "literal", "inside"][(i // 2) % 3]
+        if as_tcut:
+            cells.append("memory-given-as-tcut")
+    params = lib.tempo_params(dt, epsrel, kmax, tau, subdiv, as_tcut=as_tcut)
+    if params.dkmax != kmax:
+        return {"inconclusive": f"harness: tcut form gives dkmax "
+                                f"{params.dkmax}, wanted {kmax}"}
     # a Hamiltonian that is not smooth within a step, integrated with a
     # deliberately loose tolerance for the Liouvillian (a parameter of its
     # own, unrelated to the SVD tolerance): both methods must use it
@@ -283,8 +292,17 @@ def run_case(case):
         mfs_b2, _ = mf.build()
         mfs_b = oqupy.MeanFieldSystem(mfs_b2.system_list, field_eom=log_b)
         log_b.events.clear()
+        # the caller's initial states may have any memory layout
+        lay = (i // 2) % 3
+        rhos_b = rhos
+        if lay == 1:
+            rhos_b = [np.asfortranarray(r) for r in rhos]
+        elif lay == 2:
+            rhos_b = [np.ascontiguousarray(r.T).T for r in rhos]
+        if lay:
+            cells.append("initial-state:non-contiguous")
         dyn_b = oqupy.compute_dynamics_with_field(
-            mfs_b, a0, process_tensor_list=pts, initial_state_list=rhos,
+            mfs_b, a0, process_tensor_list=pts, initial_state_list=rhos_b,
             start_time=start, record_all=record_all, subdiv_limit=subdiv,
             progress_type="silent",
             **({} if liou_eps is None else {"liouvillian_epsrel": liou_eps}))
